@@ -521,7 +521,7 @@ def set_to_seq(I, v, why):
         I.codec.order_events.append(("set-order", f"{why}(set)"))
     res = c.fresh(f"{why}_of_set", z3.SeqSort(v.ty.elem.sort()))
     x = z3.Const("enum_x", v.ty.elem.sort())
-    c.assume(z3.ForAll([x], z3.Contains(res, z3.Unit(x)) == z3.Select(v.t, x)))
+    c.assume(z3.ForAll([x], z3.Contains(res, z3.Unit(x)) == z3.Select(v.t, x)), definitional=True)
     if getattr(I, "accumulate_rules", False):
         # the same fact in index form (a consequence; saves the solver the nth => contains step).  Only for
         # targets that ask for it: every extra quantified assumption makes `sat` answers (needed to
